@@ -51,6 +51,9 @@ def entity(kind, path, seed=0, tag_=None):
             D.prop(T('int'), 'count'), D.prop(T('double', 1), 'fixed'),
             D.op(single(T(q(path, C))), '+', [arg(T(q(path, C), 1, '&'), 'o')]),
             D.op(single(T(q(path, C))), '-', []),
+            # the same symbols once more, in the other arity
+            D.op(single(T(q(path, C))), '-', [arg(T(q(path, C), 1, '&'), 'o')]),
+            D.op(single(T(q(path, C))), '+', []),
             D.op(single(T('double')), '()', [arg(T('int'), 'i')]),
             D.op(single(T('int')), '[]', [arg(T('size_t'), 'i')]),
             D.dunder('len'), D.dunder('contains', [arg(T('int'), 'key')]), D.dunder('iter'),
@@ -59,7 +62,12 @@ def entity(kind, path, seed=0, tag_=None):
         C = 'Tc' + s
         return [D.cls(C, [D.ctor(C, [arg(T('T', 1, '&'), 'v')]), D.method(single(T('T')), 'value', [], 1),
                           D.static(single(T('This')), 'Id', []),
-                          D.method(single(T('U')), 'as', [arg(T('U', 1, '&'), 'u')], tpl=[D.tparam('U', [T('int'), T('ns::Rot')])])],
+                          D.method(single(T('U')), 'as', [arg(T('U', 1, '&'), 'u')], tpl=[D.tparam('U', [T('int'), T('ns::Rot')])]),
+                          # an instance template and a static method of the same C++ name (different Python names), and vice versa
+                          D.method(single(T('void')), 'fill', [arg(T('U', 1, '&'), 'u')], tpl=[D.tparam('U', [T('double'), T('string')])]),
+                          D.static(single(T('int')), 'fill', []),
+                          D.method(single(T('double')), 'make', [], 1),
+                          D.static(single(T('U')), 'make', [arg(T('U'), 'u')], tpl=[D.tparam('U', [T('int')])])],
                       tpl=[D.tparam('T', [T('double'), T('ns::Pose')])])]
     if kind == 'typedef':
         C = 'Tt' + s
@@ -94,9 +102,13 @@ def entity(kind, path, seed=0, tag_=None):
         C = 'Kw' + s
         rot = seed % len(kws)
         k = kws[rot:] + kws[:rot]
+        # names that are no (hard) keywords of Python must be bound as they are
+        soft = ['type', 'match', 'case', '_', 'self', 'cls', 'exec', 'print_', 'None_', 'lambda_']
         return [D.cls(C + 'M', [D.method(single(T('int')), n, [arg(T('int'), 'a')]) for n in k]),
-                D.cls(C + 'S', [D.static(single(T('int')), n, []) for n in k])] + \
-               ([D.func(single(T('void')), n, [arg(T('int'), 'v' + s)]) for n in k] if tag_ is None else [])
+                D.cls(C + 'S', [D.static(single(T('int')), n, []) for n in k]),
+                D.cls(C + 'N', [D.method(single(T('int')), n, [arg(T('int'), 'a')]) for n in soft] +
+                      [D.static(single(T('int')), n, []) for n in reversed(soft)])] + \
+               ([D.func(single(T('void')), n, [arg(T('int'), 'v' + s)]) for n in k + soft[:4]] if tag_ is None else [])
     if kind == 'kwprops':
         C = 'Kp' + s
         return [D.cls(C, [D.prop(T('int'), n) for n in kws[:6]] + [D.enum('E', kws[6:10])]),
